@@ -138,13 +138,18 @@ def main(argv):
         print(json.dumps(results, indent=1))
     # append to the results log
     logp = os.path.join(HERE, "tools", "mutant_results.json")
-    try:
-        log = json.load(open(logp))
-    except Exception:
-        log = {}
-    for e in results:
-        log[e["id"]] = e
-    json.dump(log, open(logp, "w"), indent=1, sort_keys=True)
+    import fcntl
+    with open(logp + ".lock", "w") as lk:           # several runs may finish at once
+        fcntl.flock(lk, fcntl.LOCK_EX)
+        try:
+            log = json.load(open(logp))
+        except Exception:
+            log = {}
+        for e in results:
+            log[e["id"]] = e
+        with open(logp + ".tmp", "w") as f:
+            json.dump(log, f, indent=1, sort_keys=True)
+        os.replace(logp + ".tmp", logp)
     return 0
 
 
